@@ -8,7 +8,7 @@
                 of their channels, subscriptions with reference counts, the unfiltered channel) and fails when none is left.
                 The order in which the reader serves the channels is the iteration order of msg_senders last seen.
    spec field : Spec.spec_check on the history alone;
-   class      : clone_uncounted if a stream is cloned in the case, else async_drop_deadlock if async_drop is used. *)
+   class      : none (no known class is left for C20). *)
 From ZV Require Import Base.Bytes Base.Res C19.Broadcast C20.Model C20.Spec.
 
 Fixpoint split_fast_aux (sep : byte) (l cur : bytes) : list bytes :=
@@ -631,7 +631,7 @@ Definition run_case (line : bytes) : outp :=
                         else if negb (snap_ok s0 init) then B "initial-state-differs"
                         else replay rs 0 h (order_of s0 []) 0 [init] in
                       let spec := spec_check rs (canon_of rs) h in
-                      let cls := if has_step "c"%byte steps then B "clone_uncounted" else dash in
+                      let cls := dash in
                       {| o_model := model; o_spec := spec; o_class := cls |}
                   | None => bad_case
                   end
